@@ -292,8 +292,10 @@ def build(cls_name, cfg, rec: Recorder):
     kw = dict(fitness_function=rec.wrap_fitness(f), iters=iters, pop_size=pop,
               elitism=flag(cfg.get("elitism", True)), minimization=flag(cfg.get("minimization", False)),
               keep_history=cfg.get("keep_history", True), random_state=cfg.get("seed", 0),
-              optimal_value=cfg.get("optimal_value"), termination_error_value=cfg.get("termination_error_value", 0.0),
+              optimal_value=cfg.get("optimal_value"),
               no_increase_num=cfg.get("no_increase_num"), n_jobs=1)
+    if "termination_error_value" in cfg:      # otherwise the class's own default applies (documented: 0)
+        kw["termination_error_value"] = cfg["termination_error_value"]
     if g2p is not None:
         kw["genotype_to_phenotype"] = rec.wrap_g2p(g2p)
     rec.cb_obs = []        # what a user's callback sees: (individuals evaluated so far, reported best fitness)
@@ -535,6 +537,8 @@ def configs(tier: str, seed: int, classes=None, extra_stop=True):
                 out.append((cn, dict(base, objective="sphere", optimal_value=27.0, termination_error_value=20.0, iters=15, seed=seed * 100 + 54)))
                 out.append((cn, dict(base, objective="sphere", optimal_value=0.0, termination_error_value=100.0, minimization=True, iters=9, seed=seed * 100 + 55)))
                 out.append((cn, dict(base, objective="sphere", optimal_value=-1.0, minimization=True, iters=5, seed=seed * 100 + 56)))
+                # the tolerance is NOT given (its documented default is 0): a best value within 1e-8 of the target has not reached it
+                out.append((cn, dict(base, objective="tiny", optimal_value=0.0, minimization=True, iters=8, seed=seed * 100 + 61)))
             else:
                 out.append((cn, dict(base, objective="plateau", optimal_value=2.0, termination_error_value=1.0, iters=10, seed=seed * 100 + 53)))
                 out.append((cn, dict(base, objective="negative", optimal_value=-51.0, termination_error_value=6.0, minimization=False, iters=10, seed=seed * 100 + 54)))
